@@ -295,6 +295,13 @@ def build(rng):
             pending = 'opt' if text.endswith('\n') else True
     # a valueless println directly followed by something value-like would
     # swallow it: keep scripts unambiguous
+    if rng.random() < 0.3:
+        # a delay in force: every device command waits first, which has no
+        # bearing on what is written and where the lines break
+        spots = [k for k in range(len(stmts) + 1)
+                 if k == 0 or stmts[k - 1] != 'println']
+        stmts.insert(rng.choice(spots),
+                     'time {}'.format(rng.choice([1, 0.5, 2])))
     for i in range(len(stmts) - 1):
         if stmts[i] == 'println' and stmts[i + 1].startswith(
                 ('[', 'hue', 'saturation')):
